@@ -3,12 +3,18 @@ import CpModel.Bus
 /-!
   Driver for C18 (process bus).  One case per line: a space-separated list of call tokens
 
-    start | stop | exit | restart | graceful | pub:CH | unsub:CH:ID | sub:CH:ID:PRIO:OUT:ACTS
+    start | stop | exit | restart | graceful | pub:CH | unsub:CH:ID | atexit | swc
+    sub:CH:ID:PRIO:OUT:ACTS                 (explicit priority argument)
+    sub:CH:ID:ARG:ATTR:OUT:ACTS             ARG = n | N | dn | dN (d = decorator form), ATTR = n | N
+    wait:ST+ST…:CH|none:PLAN   block:PLAN   PLAN = - | o.k.i.xN…  (sleep ok / KeyboardInterrupt /
+                                                                   IOError / SystemExit N)
 
   OUT  = ok | raise | kbd | exitN          ACTS = - | ACT+ACT+…
-  ACT  = s~CH~ID~PRIO~OUT | u~CH~ID | p~CH
+  ACT  = s~CH~ID~PRIO~OUT | u~CH~ID | p~CH | c~METHOD
 
-  Output: `R=<res>,… J=<ch.id.st.prio>,… S=<state> X=<0|1>` (`-` for an empty list).
+  Output: `R=<res;res…>,… J=<ch.id.st.prio.depth>,… S=<state> X=<0|1> T=<state trace> A=<n> W=<n>
+  O=<same|diff|na>` (`-` for an empty list).  `O` compares the first-generation model
+  (`runCalls`) with the second on lines both can express.
 -/
 open CpModel CpModel.Bus
 
@@ -32,6 +38,11 @@ def showChan : Chan → String
   | .start => "start" | .stop => "stop" | .exit => "exit" | .graceful => "graceful"
   | .log => "log" | .main => "main" | .custom n => s!"c{n}"
 
+def parseMeth (s : String) : Option Meth :=
+  if s == "start" then some .start else if s == "stop" then some .stop
+  else if s == "exit" then some .exit else if s == "restart" then some .restart
+  else if s == "graceful" then some .graceful else none
+
 def parseAct (s : String) : Option Act :=
   match s.splitOn "~" with
   | ["s", ch, id, prio, out] => do
@@ -39,46 +50,108 @@ def parseAct (s : String) : Option Act :=
     pure (.sub (← parseChan ch) i p o)
   | ["u", ch, id] => do pure (.unsub (← parseChan ch) (← id.toNat?))
   | ["p", ch] => do pure (.pub (← parseChan ch))
+  | ["c", m] => do pure (.call (← parseMeth m))
   | _ => none
 
 def parseActs (s : String) : Option (List Act) :=
   if s == "-" then some [] else (s.splitOn "+").mapM parseAct
 
-def parseCall (s : String) : Option Call :=
+def parseSt (s : String) : Option St :=
+  if s == "STOPPED" then some .stopped else if s == "STARTING" then some .starting
+  else if s == "STARTED" then some .started else if s == "STOPPING" then some .stopping
+  else if s == "EXITING" then some .exiting else none
+
+def parseOptNat (s : String) : Option (Option Nat) :=
+  let s := if s.startsWith "d" then (s.drop 1).toString else s
+  if s == "n" then some none else s.toNat?.map some
+
+def parseSleep (s : String) : Option Sleep :=
+  if s == "o" then some .ok else if s == "k" then some .kbd else if s == "i" then some .ioerr
+  else if s.startsWith "x" then (s.drop 1).toString.toNat?.map .sysExit else none
+
+def parsePlan (s : String) : Option (List Sleep) :=
+  if s == "-" then some [] else (s.splitOn ".").mapM parseSleep
+
+def parseCall (s : String) : Option XCall :=
   match s.splitOn ":" with
-  | ["start"] => some .start
-  | ["stop"] => some .stop
-  | ["exit"] => some .exit
-  | ["restart"] => some .restart
-  | ["graceful"] => some .graceful
   | ["pub", ch] => do pure (.publish (← parseChan ch))
   | ["unsub", ch, id] => do pure (.unsubscribe (← parseChan ch) (← id.toNat?))
   | ["sub", ch, id, prio, out, acts] => do
     let i ← id.toNat?; let p ← prio.toNat?; let o ← parseOut out; let a ← parseActs acts
-    pure (.subscribe (← parseChan ch) ⟨i, p, a, o⟩)
+    pure (.subscribe (← parseChan ch) i (some p) none a o)
+  | ["sub", ch, id, arg, attr, out, acts] => do
+    let i ← id.toNat?; let o ← parseOut out; let a ← parseActs acts
+    pure (.subscribe (← parseChan ch) i (← parseOptNat arg) (← parseOptNat attr) a o)
+  | ["atexit"] => some .atexit
+  | ["swc"] => some .swc
+  | ["wait", ts, ch, plan] => do
+    let t ← (ts.splitOn "+").mapM parseSt
+    let c ← if ch == "none" then some none else (parseChan ch).map some
+    pure (.wait t c (← parsePlan plan))
+  | ["block", plan] => do pure (.block (← parsePlan plan))
+  | [m] => (parseMeth m).map .meth
   | _ => none
 
 def showSt : St → String
   | .stopped => "STOPPED" | .starting => "STARTING" | .started => "STARTED"
   | .stopping => "STOPPING" | .exiting => "EXITING"
 
-def showRes : Res → String
-  | .ret => "ret"
-  | .procExit c => s!"procexit{c}"
-  | .exc (.chanFail ids) => "fail[" ++ "/".intercalate (ids.map toString) ++ "]"
-  | .exc (.sysExit c) => s!"sysexit{c}"
-  | .exc .kbdInt => "kbd"
-  | .exc .outOfFuel => "outoffuel"
+def showXO : XO → String
+  | none => "ret"
+  | some (.procExit c) => s!"procexit{c}"
+  | some (.chanFail ids) => "fail[" ++ "/".intercalate (ids.map toString) ++ "]"
+  | some (.sysExit c) => s!"sysexit{c}"
+  | some .kbdInt => "kbd"
+  | some .ioErr => "ioerr"
+  | some .execv => "execv"
+  | some .hang => "hang"
+  | some .outOfFuel => "outoffuel"
 
 def joinOr (xs : List String) : String := if xs.isEmpty then "-" else ",".intercalate xs
+
+/-! first generation, for the lines it can express -/
+
+def actOld : Act → Bool
+  | .call _ => false
+  | _ => true
+
+def toOld : XCall → Option Call
+  | .meth .start => some .start
+  | .meth .stop => some .stop
+  | .meth .exit => some .exit
+  | .meth .restart => some .restart
+  | .meth .graceful => some .graceful
+  | .publish ch => some (.publish ch)
+  | .subscribe ch id arg attr acts out =>
+    if acts.all actOld then some (.subscribe ch ⟨id, effPrio arg attr, acts, out⟩) else none
+  | .unsubscribe ch id => some (.unsubscribe ch id)
+  | _ => none
+
+def resToXO : Res → XO
+  | .ret => none
+  | .procExit c => some (.procExit c)
+  | .exc (.chanFail ids) => some (.chanFail ids)
+  | .exc (.sysExit c) => some (.sysExit c)
+  | .exc .kbdInt => some .kbdInt
+  | .exc .outOfFuel => some .outOfFuel
+
+def compareOld (calls : List XCall) (w : XW) (rs : List (List XO)) : String :=
+  match calls.mapM toOld with
+  | none => "na"
+  | some cs =>
+    let (wo, ro) := runCalls 8 { bus := Bus.init } cs
+    let jx := w.j.map fun e => (Entry.mk e.ch e.id e.st e.prio)
+    if ro.map (fun r => [resToXO r]) == rs && decide (wo.j = jx) && decide (wo.bus.state = w.bus.state)
+        && wo.bus.execv == w.bus.execv then "same" else "diff"
 
 def step (line : String) : String :=
   match (Proto.fields line).mapM parseCall with
   | none => "bad-op"
   | some calls =>
-    let (w, rs) := runCalls 8 { bus := Bus.init } calls
-    let js := w.j.map fun e => s!"{showChan e.ch}.{e.id}.{showSt e.st}.{e.prio}"
-    s!"R={joinOr (rs.map showRes)} J={joinOr js} S={showSt w.bus.state} X={if w.bus.execv then 1 else 0}"
+    let (w, rs) := runCallsX 16 { bus := Bus.init } calls
+    let js := w.j.map fun e => s!"{showChan e.ch}.{e.id}.{showSt e.st}.{e.prio}.{e.depth}"
+    let rr := rs.map fun r => ";".intercalate (r.map showXO)
+    s!"R={joinOr rr} J={joinOr js} S={showSt w.bus.state} X={if w.bus.execv then 1 else 0} T={joinOr (w.tr.map showSt)} A={w.atexit} W={w.warns} O={compareOld calls w rs}"
 
 end Drv.C18
 
